@@ -1,7 +1,7 @@
 (* C20 - wire codecs: the property theorems, nothing else.  Each is closed by [exact] of a lemma proved in
    Codec/*.v and followed by Print Assumptions.  Bytes are Z values; payloads are arbitrary lists. *)
 From Icv Require Import Base.Tac Codec.NsModel Codec.NsDecimal Codec.NsProofs Codec.NsStreamProofs
-  Codec.JsModel Codec.JsProofs Codec.CodecOracle Codec.CodecOracleProofs.
+  Codec.JsModel Codec.JsProofs Codec.CodecOracle Codec.CodecOracleProofs Facts.Facts_c20.
 Local Open Scope Z_scope.
 
 (* ---- netstring, StreamReadContext variant (state file, replay log, objects file) ---- *)
@@ -134,9 +134,15 @@ Theorem C20_json_roundtrip_partial : forall cps more f,
 Proof. exact js_string_roundtrip. Qed.
 Print Assumptions C20_json_roundtrip_partial.
 
+(* the nesting limit of JsonDecode as it stands in the source now (regenerated fact): the property's own round-trip
+   quantifier (nesting to depth 64) lies inside it.  (None = the guard is not in the source: no limit in the model.) *)
+Theorem C20_json_depth_covers_quantifier : match f_js_max_depth with Some m => 64 < m | None => True end.
+Proof. vm_compute. reflexivity. Qed.
+Print Assumptions C20_json_depth_covers_quantifier.
+
 (* whole values: kernel-evaluated instances only (floats instantiated by an empty type: integers only) *)
 Example C20_json_roundtrip_examples :
-  let dec := js_decode Empty_set (fun _ => None) in
+  let dec := js_decode Empty_set (fun _ => None) f_js_max_depth in
   let enc := js_encode Empty_set (fun f => match f with end) in
   forallb (fun v => match dec (enc v) with Some v' => cd_bytes_eqb (enc v') (enc v) | None => false end)
     [ JsNull _; JsBool _ true; JsNum _ 0; JsNum _ (-9007199254740992); JsNum _ 18446744073709549568;
